@@ -233,6 +233,9 @@ class Tx:
         if fn == "abs" and len(args) == 1:
             return "Elem.abs %s" % paren(self.scalar(args[0], env)), "S"
         if fn in ("numpy.array", "numpy.asarray") and len(args) == 1 and kw <= {"dtype"}:
+            if isinstance(args[0], ast.Name):
+                # how a caller's array is taken over: numpy.array copies, numpy.asarray may alias it
+                self.stores = getattr(self, "stores", []) + ["%s: %s" % (args[0].id, fn)]
             return self.expr(args[0], env)
         if fn in ("numalg.inv", "numpy.linalg.inv") and len(args) == 1:
             s, t = self.expr(args[0], env)
@@ -598,6 +601,15 @@ def translate_lattice(report):
                 out.append(emit_def(name, lean_params, "Lattice α", m.lines, "L", doc or "`Lattice.%s`" % name))
             out.append("def %s_guards : List String := [%s]\n\n" % (name, ", ".join(lean_str(g) for g in m.guards)))
             info["methods"][name] = {"lines": len(m.lines), "guards": m.guards}
+            if not pure:
+                # bare parameter names on the right-hand side of an attribute assignment would alias the caller's object
+                stores = sorted(set(getattr(tx, "stores", [])))
+                for st_ in ast.walk(fn):
+                    if isinstance(st_, ast.Assign) and isinstance(st_.value, ast.Name) and st_.value.id in env and env[st_.value.id][1] in ("M", "OM") \
+                            and any(isinstance(t_, ast.Attribute) for t_ in st_.targets):
+                        stores.append("%s: alias" % st_.value.id)
+                out.append("/-- how the array arguments of `%s` are taken over (`numpy.array` copies) -/\n" % name)
+                out.append("def %s_arrayArgs : List String := [%s]\n\n" % (name, ", ".join(lean_str(g) for g in stores)))
             if getattr(m, "array_branches", None):
                 out.append("/-- the array branch of `%s` (source text; the model maps the scalar branch over rows) -/\n" % name)
                 out.append("def %s_arrayBranch : List String := [%s]\n\n" % (name, ", ".join(lean_str(g) for g in m.array_branches)))
@@ -1274,6 +1286,39 @@ def translate_structure(report):
     return hdr + "open DS\n" + ATOM_SECTION + "".join(out).replace("Src.", "Src.Atom.") + "end\nend DS.Src.Structure\n"
 
 
+
+def translate_cif(report):
+    """the number reader of p_cif.py: the regular expression and the body of `leading_float`, as data"""
+    path = os.path.join(REPO, "src", "diffpy", "structure", "parsers", "p_cif.py")
+    text = open(path, encoding="utf-8").read()
+    tree = ast.parse(text)
+    info = {"methods": {}, "untranslatable": {}}
+    out = []
+    try:
+        pat = None
+        for n in tree.body:
+            if isinstance(n, ast.Assign) and len(n.targets) == 1 and isinstance(n.targets[0], ast.Name) and n.targets[0].id == "rx_float":
+                c = n.value
+                if isinstance(c, ast.Call) and ast.unparse(c.func) == "re.compile" and len(c.args) == 1 and not c.keywords \
+                        and isinstance(c.args[0], ast.Constant) and isinstance(c.args[0].value, str):
+                    pat = c.args[0].value
+        if pat is None:
+            raise Untranslatable("rx_float = re.compile(<literal>) not found")
+        fn = find_func(tree.body, "leading_float")
+        if fn is None:
+            raise Untranslatable("leading_float not found")
+        body = [b for b in fn.body if not (isinstance(b, ast.Expr) and isinstance(b.value, ast.Constant) and isinstance(b.value.value, str))]
+        txt = "(%s) " % ", ".join(a.arg for a in fn.args.args) + "; ".join(" ".join(ast.unparse(b).split()) for b in body)
+        out.append("/-- the pattern of `rx_float` -/\ndef rx_float : String := %s\n\n" % lean_str(pat))
+        out.append("/-- normalised source of `leading_float` -/\ndef leading_float_body : String := %s\n\n" % lean_str(txt))
+        info["methods"]["leading_float"] = True
+    except Untranslatable as e:
+        info["untranslatable"]["leading_float"] = str(e)
+        out.append("def leading_float_untranslatable : String := %s\n\n" % lean_str(str(e)))
+    report["cif"] = info
+    return "-- GENERATED by translate/pysrc.py from src/diffpy/structure/parsers/p_cif.py — do not edit\nnamespace DS.Src.Cif\n\n" + "".join(out) + "end DS.Src.Cif\n"
+
+
 def write_if_changed(path, text):
     try:
         if open(path, encoding="utf-8").read() == text:
@@ -1286,7 +1331,7 @@ def write_if_changed(path, text):
     return True
 
 
-def main(outdir=OUTDIR, report_path=None, groups=("lattice", "atom", "structure")):
+def main(outdir=OUTDIR, report_path=None, groups=("lattice", "atom", "structure", "cif")):
     report = {}
     if "lattice" in groups:
         write_if_changed(os.path.join(outdir, "SrcLattice.lean"), translate_lattice(report))
@@ -1294,6 +1339,8 @@ def main(outdir=OUTDIR, report_path=None, groups=("lattice", "atom", "structure"
         write_if_changed(os.path.join(outdir, "SrcAtom.lean"), translate_atom(report))
     if "structure" in groups:
         write_if_changed(os.path.join(outdir, "SrcStructure.lean"), translate_structure(report))
+    if "cif" in groups:
+        write_if_changed(os.path.join(outdir, "SrcCif.lean"), translate_cif(report))
     if report_path:
         with open(report_path, "w") as f:
             json.dump(report, f, indent=1)
